@@ -270,7 +270,7 @@ func layouts(n int, blankSites []int, trailing bool, pairs bool) []layout {
 }
 
 func run(c *enum.Ctx) {
-	c.Rule("valid files from the C01/C02 generators (<=2 records; FASTA also a 12289-letter record) x layout transformations: FASTA re-wrap at widths {1,2,3,60,4095,4096,4097,20000}, a blank line at every line boundary (thorough: every pair), trailing ' ', tab, ' tab' on each line and on all lines, CRLF, no final newline, and their pairwise combinations; FASTQ: CRLF, blank lines at record boundaries, trailing blanks, no final newline; BED (every type) and GFF (features, regions, inline sequences last or not): CRLF x final newline; oracle: the record list of the variant equals that of the canonical file; non-trivial = variants that differ from the canonical text")
+	c.Rule("FASTA read into plain and quality-carrying templates; every FASTA/FASTQ file read alternately with a companion reader of another configuration; valid files from the C01/C02 generators (<=2 records; FASTA also a 12289-letter record) x layout transformations: FASTA re-wrap at widths {1,2,3,60,4095,4096,4097,20000}, a blank line at every line boundary (thorough: every pair), trailing ' ', tab, ' tab' on each line and on all lines, CRLF, no final newline, and their pairwise combinations; FASTQ: CRLF, blank lines at record boundaries, trailing blanks, no final newline; BED (every type) and GFF (features, regions, inline sequences last or not): CRLF x final newline; oracle: the record list of the variant equals that of the canonical file; non-trivial = variants that differ from the canonical text")
 	c.Assume("blank lines inside a FASTQ record and trailing blanks/blank lines in BED/GFF are not covered by the statement and are not generated")
 	var cases []kase
 	recs := []seqgen.Rec{
